@@ -10,6 +10,7 @@ import (
 	"verif/props/c01"
 	"verif/props/c02"
 	"verif/props/c03"
+	"verif/props/c04"
 	"verif/props/c07"
 	"verif/props/c08"
 	"verif/props/c09"
@@ -32,6 +33,7 @@ var props = map[string]prop{
 	"C01": {"exploration", c01.Run},
 	"C02": {"exploration", c02.Run},
 	"C03": {"exploration", c03.Run},
+	"C04": {"fault_enumeration", c04.Run},
 	"C07": {"exploration", c07.Run},
 	"C08": {"exploration", c08.Run},
 	"C09": {"model_checking", c09.Run},
